@@ -3,6 +3,23 @@
 #   checks  (quick, thorough) total rapid cases over all shards
 #   shards  (quick, thorough)     timeout (quick, thorough) seconds per process
 CHECKS = {
+    "C05": dict(
+        pkg="p_broker", level="fault_enumeration",
+        technique="grammar-then-mutate fuzzing of attacker byte streams and end causes against a broker with a witness publisher/subscriber pair; a forced teardown-vs-delivery interleaving through a yield hook",
+        level_text=("1-3 attacker connections send a valid session (CONNECT, SUBSCRIBE - often to the witness topic -, PUBLISHes) mutated in one of 13 ways (cut anywhere, bit flips, wrong first packet, garbage "
+                    "before/after CONNECT, cut bodies, corrupted/huge/5-byte remaining lengths before and after CONNECT, packets larger than the ring or between size-8192 and size, reserved and server-only "
+                    "types, malformed request bodies) and end by close, stall+close or silence, while a witness publisher sends numbered messages to a witness subscriber. Afterwards: no panic escaped a "
+                    "connection handler, both witness connections still answer PINGREQ, and the witness subscriber holds exactly the witness sequence, in order, byte-identical. Unit trap parks a witness "
+                    "delivery addressed to the attacker at writeMessage.enter until the attacker's teardown has finished (the window named by the property). Fault classes are enumerated by kind; inputs within a class are sampled."),
+        level_note=("Trusted: harness/ref/codec, the witness oracle, the teardown-done hook and the yield hook writeMessage.enter. Pre-CONNECT declared remaining lengths above 1 MiB are not generated "
+                    "in-process (the code allocates the declared size up front); hangs are judged at quiescence only."),
+        rule=("rapid-generated scenarios; non-trivial = the attacker stream contains a malformed/cut packet (or the forced teardown window) and the witness exchanged >= 10 messages spanning the attack; distinct = FNV-64 of the scenario JSON"),
+        assumptions=["ConnectTimeout 1 s", "the broker process dying is observed as a panic escaping the connection handler goroutine (no recover there in production)"],
+        units=[
+            dict(name="streams", test="TestC05Streams", checks=(300, 20000), shards=(4, 14), timeout=(240, 3000)),
+            dict(name="trap", test="TestC05Trap", checks=(200, 4000), shards=(2, 8), timeout=(240, 3000)),
+        ]),
+
     "C06": dict(
         pkg="p_topics", level="exploration",
         technique="small-scope exhaustive enumeration + rapid model-based histories against an independent section-4.7 matcher; variant-oracle signatures for known findings",
@@ -27,7 +44,7 @@ CHECKS = {
         level_note='Trusted: harness/ref/match, harness/ref/codec (strict parsing of every received byte), the reference model in harness/p_broker/model.go, and the barrier argument (a PINGRESP proves that everything the broker did for earlier packets of that client is committed). Known finding empty-level is excluded by a variant model run in lock-step.',
         rule='rapid-generated plans; non-trivial = a request with >= 4 filters or with an invalid filter/QoS, or an unsubscribe of a held filter followed by deliveries that distinguish the outcome; distinct = FNV-64 of the plan JSON',
         assumptions=["sequential execution; 'takes effect at the ack' is judged for publishes sent after the ack was read"],
-        units=[dict(name="sequential", test="TestC07", checks=(1000, 30000), shards=(4, 14), timeout=(240, 3000))]),
+        units=[dict(name="sequential", test="TestC07", checks=(3000, 30000), shards=(4, 14), timeout=(240, 3000))]),
 
     "C08": dict(
         pkg="p_broker", level="exploration",
@@ -36,7 +53,7 @@ CHECKS = {
         level_note='Trusted: harness/ref/match, harness/ref/codec (strict parsing of every received byte), the reference model in harness/p_broker/model.go, and the barrier argument (a PINGRESP proves that everything the broker did for earlier packets of that client is committed). Known finding empty-level is excluded by a variant model run in lock-step.',
         rule='rapid-generated plans; non-trivial = a subscription received retained messages in a plan that also has a retained replacement, a clear or >= 1 ring of filler; distinct = FNV-64 of the plan JSON',
         assumptions=['the retain flag of deliveries to in-process callbacks (Server.Subscribe) is not judged: the callback sees the message object as published', 'sequential execution in this unit'],
-        units=[dict(name="sequential", test="TestC08", checks=(800, 25000), shards=(4, 14), timeout=(240, 3000))]),
+        units=[dict(name="sequential", test="TestC08", checks=(3000, 25000), shards=(4, 14), timeout=(240, 3000))]),
 
     "C09": dict(
         pkg="p_broker", level="exploration",
@@ -45,7 +62,7 @@ CHECKS = {
         level_note='Trusted: harness/ref/match, harness/ref/codec (strict parsing of every received byte), the reference model in harness/p_broker/model.go, and the barrier argument (a PINGRESP proves that everything the broker did for earlier packets of that client is committed). Known finding empty-level is excluded by a variant model run in lock-step.',
         rule='rapid-generated plans; non-trivial = a will became due on a resumed session (an earlier generation of the id existed) or a held will was suppressed by DISCONNECT; distinct = FNV-64 of the plan JSON',
         assumptions=['keep-alive expiry as a cause of connection end is covered by C19', 'one live connection per client identifier'],
-        units=[dict(name="sequential", test="TestC09", checks=(600, 15000), shards=(4, 14), timeout=(240, 3000))]),
+        units=[dict(name="sequential", test="TestC09", checks=(3000, 15000), shards=(4, 14), timeout=(240, 3000))]),
 
     "C10": dict(
         pkg="p_broker", level="exploration",
@@ -54,7 +71,7 @@ CHECKS = {
         level_note='Trusted: harness/ref/match, harness/ref/codec (strict parsing of every received byte), the reference model in harness/p_broker/model.go, and the barrier argument (a PINGRESP proves that everything the broker did for earlier packets of that client is committed). Known finding empty-level is excluded by a variant model run in lock-step.',
         rule='rapid-generated plans; non-trivial = a session was resumed that held subscriptions; distinct = FNV-64 of the plan JSON',
         assumptions=['offline queueing/redelivery is unsupported by the library (README) and not asserted', 'one live connection per client identifier: the harness waits for teardown-done before reusing an id'],
-        units=[dict(name="sequential", test="TestC10", checks=(800, 25000), shards=(4, 14), timeout=(240, 3000))]),
+        units=[dict(name="sequential", test="TestC10", checks=(3000, 25000), shards=(4, 14), timeout=(240, 3000))]),
 
     "C11": dict(
         pkg="p_broker", level="exploration",
@@ -71,7 +88,7 @@ CHECKS = {
         assumptions=["ConnectTimeout is 1 s in the fixture", "client ids of 24-32 printable characters and inputs the 3.1-compatible decoder tolerates are accepted either way"],
         units=[
             dict(name="enum", test="TestC11Enum", kind="enum", shards=(4, 14)),
-            dict(name="random", test="TestC11Random", checks=(1500, 200000), shards=(4, 14), timeout=(240, 3000)),
+            dict(name="random", test="TestC11Random", checks=(4000, 200000), shards=(4, 14), timeout=(240, 3000)),
         ]),
 
     "C13": dict(
@@ -107,7 +124,19 @@ CHECKS = {
                     "processor). Sequential plans only in this unit; interleavings of clients are covered by C17/C18."),
         rule=("rapid-generated plans (8-40 ops); non-trivial = some publish had >= 1 recipient while >= 1 connected client was not a recipient; distinct = FNV-64 of the plan JSON"),
         assumptions=["topics and filters never start with '$'", "one live connection per client identifier", "sequential execution with exact cuts"],
-        units=[dict(name="sequential", test="TestC01", checks=(1200, 30000), shards=(4, 14), timeout=(240, 3000))]),
+        units=[dict(name="sequential", test="TestC01", checks=(3000, 30000), shards=(4, 14), timeout=(240, 3000))]),
+
+    "C02": dict(
+        pkg="p_broker", level="exploration",
+        technique="rapid-generated scripts of PUBLISH / DUP PUBLISH / PUBREL / duplicate PUBREL over several packet ids mixed with ring-wrapping filler traffic, against a protocol model of acks and hand-overs",
+        level_text=("Broker role: a raw publisher sends generated interleavings of QoS 1 and QoS 2 PUBLISH packets, DUP repeats before PUBREL, PUBRELs (in PUBREC order, as MQTT obliges a sender), duplicate "
+                    "PUBRELs after PUBCOMP, identifier reuse after completion and 0.5-3 rings of unrelated traffic between PUBLISH and PUBREL; after every step the publisher's stream must contain "
+                    "exactly the expected ack (PUBACK/PUBREC/PUBCOMP with the packet's identifier, nothing else) and a QoS 2 subscriber's stream exactly the expected hand-overs: QoS 1 once per PUBLISH, "
+                    "QoS 2 never before and exactly once at its PUBREL, with the topic and payload of the original PUBLISH. Client role: see unit client-role. Sampling."),
+        level_note=("Trusted: harness/ref/codec, the exact-cut argument (publisher barrier, then subscriber barrier). PUBRELs of concurrently open exchanges are sent in PUBREC order (MQTT-4.6.0-4)."),
+        rule=("rapid-generated scripts (3-24 steps over ids {1,2,3,7}); non-trivial = a QoS 2 exchange with a duplicate PUBLISH or PUBREL, or with >= 1 ring of filler before its PUBREL; distinct = FNV-64 of the script JSON"),
+        assumptions=["the sender releases exchanges in PUBREC order", "duplicates repeat the original content"],
+        units=[dict(name="broker-role", test="TestC02Broker", checks=(3000, 20000), shards=(4, 14), timeout=(240, 3000))]),
 
     "C03": dict(
         pkg="p_codec", level="exploration",
@@ -142,6 +171,29 @@ CHECKS = {
             dict(name="mutants", test="TestC04Mutants", kind="enum", shards=(4, 14)),
             dict(name="random", test="TestC04Random", checks=(40000, 5000000), shards=(4, 14), timeout=(240, 3000)),
         ]),
+
+    "C16": dict(
+        pkg="p_broker", level="fault_enumeration",
+        technique="rapid-generated fault sequences (stalled subscribers, full rings, cross-blocked pairs, ending order x cause) with a dependency model for 'possibly held up', teardown-done events and a final goroutine census",
+        level_text=("2-5 connections (publishers, stalled subscribers, both; wills; clean/persistent; keep-alive 1 s) fill each other's rings until the broker is quiescent, then end in a generated order by "
+                    "DISCONNECT, abrupt close, protocol error, keep-alive expiry or Server.Close. For every connection that no still-open stalled peer can hold up, the teardown-done event must arrive "
+                    "(hang vs slow is decided by a goroutine census at quiescence); once all have ended every teardown has finished, wills were published exactly for the abnormal ends, clean sessions are "
+                    "gone and persistent ones kept, Server.Close returns and no goroutine with a go-mqtt frame remains. Causes and buffer conditions are enumerated as classes, sequences are sampled."),
+        level_note=("Trusted: the dependency model (a connection may wait only for a still-open stalled connection subscribed to what it published), the census (runtime.Stack states), the teardown-done hook. "
+                    "One case at a time per process so the census is attributable."),
+        rule=("rapid-generated sequences; non-trivial = at least one connection was ended while a ring involved was full (stalled subscriber with pending deliveries or blocked publisher); distinct = FNV-64 of the sequence JSON"),
+        assumptions=["a blocked delivery to a still-open stalled peer may hold a teardown up (the statement's proviso)", "wills are judged only while the server is up"],
+        units=[dict(name="faults", test="TestC16", checks=(120, 5000), shards=(4, 14), timeout=(300, 3000))]),
+    "C17": dict(
+        pkg="p_broker", level="exploration",
+        technique="concurrent stress with rapid-generated publisher/subscriber configurations; every received byte strictly parsed; self-describing payloads with per-publisher sequence numbers",
+        level_text=("2-8 raw publishers send 50-400 numbered self-describing messages each (sizes up to the packet limit, so packets straddle the 16 KiB ring end) on 1-3 shared topics at a fixed QoS per "
+                    "(publisher, topic), truly concurrently, to 1-4 raw subscribers holding one subscription per topic. Every byte a subscriber receives goes through the strict stream parser; each payload's "
+                    "header, length and pattern must be intact; per (publisher, topic, QoS) sequence numbers must be strictly increasing and, at the final cut, complete. Interleavings are whatever the Go scheduler produces."),
+        level_note=("Trusted: harness/ref/codec strict parser, the payload self-description. Client-role variant (library Client publishing from several goroutines) is in unit client-role when present."),
+        rule=("rapid-generated configurations; non-trivial = publishers actually interleaved on a subscriber (publisher switches > 4 per subscriber) and at least one packet was written through the ring's wrap path (derived from stream offsets); distinct = FNV-64 of the configuration JSON"),
+        assumptions=["each subscriber holds exactly one subscription per topic"],
+        units=[dict(name="broker-role", test="TestC17Broker", checks=(120, 3000), shards=(4, 14), timeout=(300, 3000))]),
 
     "C14": dict(
         pkg="p_ring", level="exploration",
